@@ -26,6 +26,11 @@ const (
 )
 
 func resolveErgoDir(start string) (string, error) {
+	// A relative start ("." or ".." from --dir) must be made absolute first:
+	// filepath.Dir(".") is "." again, so the upward walk would stop at once.
+	if abs, err := filepath.Abs(start); err == nil {
+		start = abs
+	}
 	current := start
 	for {
 		candidate := filepath.Join(current, dataDirName)
